@@ -280,18 +280,45 @@ def evaluate_payload_template(input, context, template):
         """
 
         def asl_intrinsic_Format(args):
-            if len(args) < 1:
+            if len(args) < 1 or not isinstance(args[0], str):
                 raise IntrinsicFailure(
-                    "States.Format failed, requires one or more arguments."
+                    "States.Format failed, requires a format string and zero or more arguments."
                 )
+            """
+            The ASL format string only knows the {} place holder, replaced by
+            the positionally-corresponding argument, and the \\{ and \\} escapes
+            for literal braces. Python's str.format() is deliberately not used
+            as its replacement fields can access attributes and items of the
+            arguments e.g. {0.__class__}, moreover it rejects escaped braces.
+            """
             template_string = args[0]
-            args = args[1:]
-            try:
-                return template_string.format(*args)
-            except Exception as e:
-                raise IntrinsicFailure(
-                    "States.Format failed with {}.".format(e)
-                )
+            values = args[1:]
+            result = []
+            used = 0
+            i = 0
+            n = len(template_string)
+            while i < n:
+                c = template_string[i]
+                if c == "\\" and i + 1 < n and template_string[i + 1] in "{}":
+                    result.append(template_string[i + 1])
+                    i += 2
+                elif c == "{" and i + 1 < n and template_string[i + 1] == "}":
+                    if used >= len(values):
+                        raise IntrinsicFailure(
+                            "States.Format failed, more {} than arguments."
+                        )
+                    value = values[used]
+                    used += 1
+                    result.append(value if isinstance(value, str) else str(value))
+                    i += 2
+                elif c == "{" or c == "}":
+                    raise IntrinsicFailure(
+                        "States.Format failed, unescaped brace at {} in format string.".format(i)
+                    )
+                else:
+                    result.append(c)
+                    i += 1
+            return "".join(result)
 
         def asl_intrinsic_StringToJson(args):
             if len(args) != 1:
